@@ -88,21 +88,12 @@ Theorem C08_time_units_bits : forall (u v : tunit) (a b : Z),
 Proof. exact days_float_units. Qed.
 Print Assumptions C08_time_units_bits.
 
-(* the plain division of tick counts (minutes since epoch in _Keplerians._get_timedelta_in_minutes) is
-   unit-independent only below 2^53 ticks (104 days in ns) ... *)
-Theorem C08_minutes_units : forall (u v : tunit) (a b : Z),
-  (Z.abs a < 2 ^ 53)%Z -> (Z.abs b < 2 ^ 53)%Z ->
+(* the same for the minutes since epoch of _Keplerians._get_timedelta_in_minutes as it is now, any tick count *)
+Theorem C08_minutes_units_bits : forall (u v : tunit) (a b : Z),
   (a * ticks_per_second v = b * ticks_per_second u)%Z ->
   minutes_float u a = minutes_float v b.
 Proof. exact minutes_float_units. Qed.
-Print Assumptions C08_minutes_units.
-
-(* ... and is rounded twice beyond (witness: the same duration of 1192720214.536334 s in us and in ns) *)
-Theorem C08_minutes_units_far_refuted :
-  (1192720214536334 * ticks_per_second US_ns = 1192720214536334000 * ticks_per_second US_us)%Z /\
-  Qeq_bool (minutes_float US_us 1192720214536334) (minutes_float US_ns 1192720214536334000) = false.
-Proof. exact minutes_float_double_rounding. Qed.
-Print Assumptions C08_minutes_units_far_refuted.
+Print Assumptions C08_minutes_units_bits.
 
 (* non-vacuity: the documentation's own example kind (python ints) on a datetime; a float32 array stays float32;
    one microsecond instant (2007-10-18T15:10:14.536334) in us and ns has equal day counts *)
@@ -110,5 +101,6 @@ Example C08_inhabited :
   sun_zenith_angle_k TDatetime (kind_of PyInt) (kind_of PyInt) = Ok (CNp, F64) /\
   cos_zen_k (TDt64Arr US_s) (kind_of ArrF32) (kind_of ArrF32) = Ok (CNd, F32) /\
   days_float US_us 1192720214536334 = days_float US_ns 1192720214536334000 /\
-  Qeq_bool (days_float US_us 1192720214536334) (782613715929015 # 274877906944) = true.
+  Qeq_bool (days_float US_us 1192720214536334) (782613715929015 # 274877906944) = true /\
+  minutes_float US_us 1192720214536334 = minutes_float US_ns 1192720214536334000.
 Proof. vm_compute. repeat split; reflexivity. Qed.
